@@ -93,7 +93,9 @@ func runMutant(m *Mutant) MutantResult {
 			unsupported = r.Key + ": " + r.Unsupported
 		}
 	}
-	discharge(obls, 10, false, 6)
+	noRetry = !m.MustPass // a must-fail mutant only needs *some* obligation to stop discharging
+	discharge(obls, 10, false, 8)
+	noRetry = false
 	for _, o := range obls {
 		if !o.Cover && !o.ok() {
 			res.Failing = append(res.Failing, o.Name)
